@@ -275,6 +275,7 @@ class Annotator:
         label = '%s::%s' % (re.sub(r'^(::)?(core|std|alloc)::([a-z_]+::)*', '', h.trait_full), fn.name)
         string = d.family == 'string'
         vw = (lambda e: e + '@') if string else (lambda e: e)
+        c11 = ['C11'] if 'C11' in d.props else []
         if t == 'TryFrom':
             raw = self._param_name(sc, fn)
             self.specimpls.append(('TryFrom', h.trait_args))
@@ -282,12 +283,12 @@ class Annotator:
                 c = 'Self::spec_post(%s, r)' % vw(raw)
             else:
                 c = 'r is Ok && r->Ok_0.spec_view() == Self::spec_sanitize(%s)' % vw(raw)
-            self.contract(fn, label, [(['C03'], c, 'try_from(raw) yields exactly what the constructor yields: ' + c)])
+            self.contract(fn, label, [(['C03'] + c11, c, 'try_from(raw) yields exactly what the constructor yields: ' + c)])
         elif t == 'From' and self_is_X:
             raw = self._param_name(sc, fn)
             self.specimpls.append(('FromInner', h.trait_args))
             c = 'r.spec_view() == Self::spec_sanitize(%s)' % vw(raw)
-            self.contract(fn, label, [(['C03'], c, 'from(raw) wraps exactly the sanitized value')])
+            self.contract(fn, label, [(['C03'] + c11, c, 'from(raw) wraps exactly the sanitized value')])
         elif t == 'From':
             raw = self._param_name(sc, fn)
             self.specimpls.append(('IntoInner', h.self_ty))
@@ -313,7 +314,7 @@ class Annotator:
             raw = self._param_name(sc, fn)
             c = ('Self::spec_post(%s@, r)' % raw if d.has_validation
                  else 'r is Ok && r->Ok_0.spec_view() == Self::spec_sanitize(%s@)' % raw)
-            self.contract(fn, label, [(['C03'], c, 'from_str(s) yields exactly what the constructor yields for s')])
+            self.contract(fn, label, [(['C03'] + c11, c, 'from_str(s) yields exactly what the constructor yields for s')])
         elif t == 'Default' and not string:
             c = 'r.spec_view() == Self::spec_sanitize(%s)' % d.default_spec()
             self.contract(fn, label, [(['C03'], c, 'default() == new(default expression)')])
